@@ -275,9 +275,14 @@ class AEKernTokenizer(Tokenizer):
             if clef is None:
                 raise ValueError("Clef must be provided to convert pitch subtoken to an agnostic pitch representation.")
 
+            # Only the letters and the sharps / flats place the note on the staff. A natural sign ('n') and an
+            # accidental-display suffix ('X', 'yy', ...) are not pitch letters: they are carried over unchanged.
+            spelling = ''.join(c for c in pitch_subtoken if c in 'abcdefgABCDEFG#-')
+            marks = ''.join(c for c in pitch_subtoken if c not in 'abcdefgABCDEFG#-')
+
             pitch_importer = PitchImporterFactory.create('kern')
-            agnostic_pitch: AgnosticPitch = pitch_importer.import_pitch(pitch_subtoken)
-            return pitch_to_gkern_string(agnostic_pitch, clef)  # Reading clef as a major scope variable
+            agnostic_pitch: AgnosticPitch = pitch_importer.import_pitch(spelling)
+            return pitch_to_gkern_string(agnostic_pitch, clef) + marks  # Reading clef as a major scope variable
 
 
         return token.export(
